@@ -28,6 +28,10 @@ MUTANTS = {
         ("yield type overwritten instead of united", T, "            self.yield_type = cast(type, Union[self.yield_type, typ])", "            self.yield_type = typ"),
         ("lookup returns the decorating wrapper", T, "    while func is not None:\n        func_code = getattr(func, \"__code__\", None)\n        if func_code is code:\n            return func",
          "    outer = func\n    while func is not None:\n        func_code = getattr(func, \"__code__\", None)\n        if func_code is code:\n            return outer"),
+        ("cache keyed by code equality again", T, "        entry = self.cache.get(id(code))\n        if entry is None:\n            entry = self.cache[id(code)] = (code, get_func(frame))",
+         "        entry = self.cache.get(code)\n        if entry is None:\n            entry = self.cache[code] = (code, get_func(frame))"),
+        ("await recorded as a yield again", T, "            if frame.f_code.co_flags & inspect.CO_COROUTINE:", "            if False and frame.f_code.co_flags & inspect.CO_COROUTINE:"),
+        ("await suspension ends the call", T, "                # call is not over.\n                return\n", "                # call is not over.\n                del self.traces[frame]\n                self.logger.log(trace)\n                return\n"),
         ("exception exit recorded as NoneType return", T, "            if last_opcode in (RETURN_VALUE_OPCODE, RETURN_CONST_OPCODE):\n                trace.return_type = typ", "            trace.return_type = typ"),
     ],
     "C18": [
@@ -39,12 +43,14 @@ MUTANTS = {
     ],
     "C03": [
         ("getattr instead of getattr_static", T, "    val = inspect.getattr_static(obj, code.co_name, None)", "    val = getattr(obj, code.co_name, None)"),
-        ("container subclasses are iterated", TY, "    if typ is list:\n        elem_type", "    if isinstance(obj, list):\n        elem_type"),
+        ("container subclasses are iterated", TY, "    if typ is list:\n        elem_type", "    if issubclass(typ, list):\n        elem_type"),
         ("only TypeError contained", T, "        except Exception:\n            logger.exception(\"Failed collecting trace\")", "        except TypeError:\n            logger.exception(\"Failed collecting trace\")"),
-        ("profiler restored after flush", T, "        sys.setprofile(old_trace)\n        logger.flush()", "        logger.flush()\n        sys.setprofile(old_trace)"),
-        ("flush twice", T, "        sys.setprofile(old_trace)\n        logger.flush()", "        sys.setprofile(old_trace)\n        logger.flush()\n        logger.flush()"),
-        ("no finally", T, "    try:\n        yield\n    finally:\n        sys.setprofile(old_trace)\n        logger.flush()", "    yield\n    sys.setprofile(old_trace)\n    logger.flush()"),
-        ("truthiness test on traced values", TY, "    typ = type(obj)\n    if typ is list:", "    typ = type(obj)\n    if not obj and typ is object:\n        return typ\n    if typ is list:"),
+        ("profiler restored after flush", T, "        sys.setprofile(old_trace)\n        try:\n            logger.flush()", "        try:\n            logger.flush()\n            sys.setprofile(old_trace)"),
+        ("flush twice", T, "        try:\n            logger.flush()\n", "        try:\n            logger.flush()\n            logger.flush()\n"),
+        ("no finally", T, "    try:\n        yield\n    finally:\n        sys.setprofile(old_trace)\n        try:\n            logger.flush()", "    yield\n    if True:\n        sys.setprofile(old_trace)\n        try:\n            logger.flush()"),
+        ("flush failure escapes again", T, "        try:\n            logger.flush()\n        except Exception:", "        try:\n            logger.flush()\n        except KeyError:"),
+        ("isinstance on traced values again", TY, "    if issubclass(typ, type):\n        return Type[obj]", "    if isinstance(obj, type):\n        return Type[obj]"),
+        ("truthiness test on traced values", TY, "        return Iterator[Any]\n    if typ is list:", "        return Iterator[Any]\n    if not obj and typ is object:\n        return typ\n    if typ is list:"),
     ],
     "C09": [
         ("commit per row", SQ, "        with self.conn:\n            self.conn.executemany(\n                \"INSERT INTO {table} VALUES (?, ?, ?, ?, ?, ?)\".format(\n                    table=self.table\n                ),\n                values,\n            )",
@@ -89,7 +95,7 @@ MUTANTS = {
         ("symlinks not resolved", CF, "    filename = pathlib.Path(code.co_filename).resolve()", "    filename = pathlib.Path(code.co_filename).absolute()"),
         ("__main__ recorded", DB, "        if not trace.func.__module__ == \"__main__\":\n            self.traces.append(trace)", "        self.traces.append(trace)"),
         ("allow-list negated", CF, "        return any(m == filename.stem or m in filename.parts for m in trace_modules)", "        return not any(m == filename.stem or m in filename.parts for m in trace_modules)"),
-        ("filter consulted only on call events", T, "            or self.should_trace\n            and not self.should_trace(code)", "            or (event == EVENT_RETURN and frame not in self.traces)\n            or (event == EVENT_CALL and self.should_trace and not self.should_trace(code))"),
+        ("filter applied to the caller's code", T, "            and not self.should_trace(code)", "            and not self.should_trace(frame.f_back.f_code if frame.f_back is not None else code)"),
     ],
 }
 
